@@ -115,6 +115,7 @@ class SchedulingSolver(BaseModelWithJson):
         self._equivalent_indicator = None  # weighted sum of several objectives, if any
         self._model = None  # no solution until the problem is solved
         self._map_boolrefs_to_constraints = {}
+        self._tracking_literals = []  # debug mode: names of the tracked assertions
         self._initialized = False
 
         if self.debug:
@@ -191,6 +192,7 @@ class SchedulingSolver(BaseModelWithJson):
     def initialize(self):
         # create the solver
         print("Solver type:\n===========")
+        self._tracking_literals = []  # they belong to the z3 solver created below
 
         # check if the problem is an optimization problem
         self._is_not_optimization_problem = len(self.problem.objectives) == 0
@@ -417,6 +419,7 @@ class SchedulingSolver(BaseModelWithJson):
             for asst in assts:
                 asst_identifier = f"asst_{uuid.uuid4().hex[:8]}"
                 self._solver.assert_and_track(asst, asst_identifier)
+                self._tracking_literals.append(asst_identifier)
                 # if the higher_contraint_name is defined, fill in the map_boolrefs_to_geometric_constraints dict
                 # to track the constraint that causes the conflict
                 if higher_constraint_name is not None:
@@ -911,9 +914,18 @@ class SchedulingSolver(BaseModelWithJson):
         """export the model to a smt file to be processed by another SMT solver"""
         if not self._initialized:
             self.initialize()
-        with open(smt_filename, "w", encoding="utf-8") as outfile:
-            if isinstance(self._solver, z3.Optimize):
-                # z3.Optimize has no to_smt2 method
-                outfile.write(self._solver.sexpr())
+        if isinstance(self._solver, z3.Optimize):
+            # z3.Optimize has no to_smt2 method
+            smt2 = self._solver.sexpr()
+        else:
+            smt2 = self._solver.to_smt2()
+        if self._tracking_literals:
+            # debug mode: each assertion is exported as "tracking literal => assertion".
+            # The solver assumes these literals at each check, the file has to state them
+            literals = "".join(f"(assert {name})\n" for name in self._tracking_literals)
+            if "(check-sat)" in smt2:
+                smt2 = smt2.replace("(check-sat)", literals + "(check-sat)", 1)
             else:
-                outfile.write(self._solver.to_smt2())
+                smt2 += "\n" + literals
+        with open(smt_filename, "w", encoding="utf-8") as outfile:
+            outfile.write(smt2)
